@@ -62,6 +62,11 @@ func scnC05(rc *RunCtx) {
 	form := []string{"accepted-key", "accepted-keypad", "accepted-cert", "accepted-password"}[rc.Sub%4]
 	fault := c05Faults[(rc.Sub/4)%len(c05Faults)]
 	m := GenSshdMsg(t, form, 1+t.Choose(9, "uniq"))
+	if t.Choose(8, "pid.zero.padded") == 7 {
+		// still a positive decimal number
+		m.PID = []string{"0", "00", "000"}[t.Choose(3, "pid.zeros")] + m.PID
+		rc.Sim.Count("c05.zero_padded_pid")
+	}
 	ctx, cancel := context.WithCancel(context.Background())
 	rc.Cleanup(cancel)
 	rec := &Recorder{Sim: rc.Sim}
